@@ -53,3 +53,20 @@ Example C11_parse_examples :
   /\ (exists m, meta_parse "-- name: A :two" (mkCS true false true) = Err m)
   /\ meta_parse "# name: A :one" (mkCS true false true) = Ok ("", "").
 Proof. vm_compute. repeat split; eexists; reflexivity. Qed.
+
+(** every query of an accepted package is the compilation of one annotated statement of one of its
+    files, and every statement that compiles to a query contributes it: one method per annotated
+    statement, none without one *)
+From Verif Require Import Proofs.RunOrigin.
+Theorem C11_run_queries_are_statements : forall e p files qs name q,
+  compile_queries e p files = Ok qs -> In (name, q) qs ->
+  exists src stmts raw, In (name, src, stmts) files /\ In raw stmts /\ parse_query e raw src p = Ok (Some q).
+Proof. exact run_query_origin. Qed.
+Print Assumptions C11_run_queries_are_statements.
+
+Theorem C11_run_statements_are_queries : forall e p files qs name src stmts raw q,
+  compile_queries e p files = Ok qs ->
+  In (name, src, stmts) files -> In raw stmts -> parse_query e raw src p = Ok (Some q) ->
+  In (name, q) qs.
+Proof. exact run_query_complete. Qed.
+Print Assumptions C11_run_statements_are_queries.
